@@ -228,7 +228,7 @@ Qed.
 (* Core after kill_unreachable: D (the merged incoming elements) is killed, what is kept lists only what is kept *)
 Lemma core_kill D from keep w r w' :
   Core (mask D w) ->
-  (forall k r0, nth_error (roots w) k = Some r0 -> r0 < from) ->
+  (forall k r0, nth_error (roots w) k = Some r0 -> killedb from keep w r0 = false) ->
   (forall p, In p D -> killedb from keep w p = true) ->
   (forall p c, killedb from keep w p = false -> lists w p c -> killedb from keep w c = false) ->
   kill_unreachable from keep w = Val (r, w') -> Core w'.
@@ -242,7 +242,7 @@ Proof.
   - intros i. rewrite <- (alloc_mask D), <- (next_mask D). apply C.
   - intros p n Kp Hp. apply (c_nodup _ C p). unfold mask. cbn. rewrite (HKD _ Kp). auto.
   - intros k r0 Hk. split.
-    + unfold killedb. apply Hro in Hk. apply N.leb_gt in Hk. rewrite Hk. reflexivity.
+    + eapply Hro; eauto.
     + destruct (c_roots _ C k r0) as (n & Hn0 & Hp); [rewrite roots_mask; auto|].
       apply mask_parent_back in Hn0 as (n0 & Hn0 & E). exists n0. split; auto. congruence.
   - intros i Hi. apply (proj2 (alloc_mask D w i)) in Hi. destruct (c_depth _ C _ Hi) as (h & Hd). exists h.
@@ -339,4 +339,31 @@ Proof.
   intros c p Hc Hp. assert (Hp2 : par w2 c p).
   { destruct Hp as (nc & Hnc & Hpc). rewrite nodes_wset_neq in Hnc by lia. exists nc. auto. }
   destruct (Cl2 c p ltac:(lia) Hp2); lia.
+Qed.
+
+Lemma killedb_old from keep w j : j < from -> killedb from keep w j = false.
+Proof. intros H. unfold killedb. apply N.leb_gt in H. rewrite H. reflexivity. Qed.
+Lemma killedb_kept from keep w j : In j keep -> killedb from keep w j = false.
+Proof. intros H. unfold killedb. apply inb_in in H. rewrite H. cbn. apply andb_false_r. Qed.
+Lemma killedb_true from keep w j : killedb from keep w j = true <-> (from <= j /\ j < w_next w /\ ~ In j keep).
+Proof.
+  unfold killedb. rewrite !andb_true_iff, N.leb_le, N.ltb_lt, negb_true_iff, inb_notin. tauto.
+Qed.
+Lemma killedb_false from keep w j : killedb from keep w j = false -> j < from \/ w_next w <= j \/ In j keep.
+Proof.
+  intros H. destruct (N.lt_ge_cases j from); auto. destruct (N.lt_ge_cases j (w_next w)); auto.
+  right. right. destruct (in_dec N.eq_dec j keep); auto. exfalso.
+  assert (killedb from keep w j = true) by (apply killedb_true; auto). congruence.
+Qed.
+
+(* Depth does not distinguish the two kinds of top *)
+Lemma depth_transfer_top w w' :
+  (forall x n, w_nodes w x = Some n -> exists n', w_nodes w' x = Some n' /\
+     (n_parent n' = n_parent n \/ ((forall p, n_parent n <> PElem p) /\ (forall p, n_parent n' <> PElem p)))) ->
+  forall x h, Depth w x h -> Depth w' x h.
+Proof.
+  intros Hp x h H. induction H as [x n Hn Ht | x n p h Hn Hpp Hd IH].
+  - destruct (Hp _ _ Hn) as (n' & Hn' & [E|(_ & E)]); eapply D_top; eauto. rewrite E. auto.
+  - destruct (Hp _ _ Hn) as (n' & Hn' & [E|(E & _)]); [|exfalso; eapply E; eauto].
+    eapply D_step; eauto. congruence.
 Qed.
